@@ -286,7 +286,8 @@ func c11Run(c c11Case) []*core.Violation {
 
 func c11Gen(t *rapid.T) c11Case {
 	o := gen.GenOpts{
-		Encodings: []string{"quoted-printable", "base64", "8bit"}, MaxParts: 3, MaxEmbeds: 2, MaxAttach: 3, AllowNoBody: true,
+		Boundaries: true,
+		Encodings:  []string{"quoted-printable", "base64", "8bit"}, MaxParts: 3, MaxEmbeds: 2, MaxAttach: 3, AllowNoBody: true,
 		PartEncs: []string{"", "", "quoted-printable", "base64", "8bit", "7bit"}, FileEncs: []string{"", "base64", "8bit", "7bit", "quoted-printable"},
 		Descriptions: true, Chunking: true,
 	}
